@@ -37,6 +37,9 @@ def run(c):
     # finding F10: reading an empty application value behind an even-length key crashes inside lmdb-go (child process)
     res = vlib.run_harness(['rawread-probe'], timeout=300)
     vlib.absorb(c, res)
+    # the same steps on DBIs of several hundred entries with values of very different lengths (pages split and
+    # records move while LS iterates and writes): content against the per-key last-writer-wins reference
+    vlib.absorb(c, vlib.run_harness(['bulk', 'C11'], timeout=600))
     c.assumptions += ['steady state: syncer running (start-up capture with timestamp 1 is outside the property)',
                       'shadow stamps compared up to order-isomorphism', 'net changes between two LS transactions (DESIGN.md s.7)']
     c.extra['rule'] = 'shadow-mode protocol behaviours replayed on real Syncers under 3 value and 7 key concretisations'
